@@ -388,6 +388,19 @@ def _settings_case(live: T, path: T, prot) -> Optional[bool]:
     return tm.fold(tm.deep_select(live, assign), assign)
 
 
+def _inside_atomic(e, atomic_funcs) -> bool:
+    """the event happened in the frame of a function that implements the
+    atomic-replace idiom (or of a private helper of such a function's
+    module that it calls), looked through from its caller"""
+    fn = e.func
+    if fn is None:
+        return False
+    if fn.qualname in atomic_funcs:
+        return True
+    return any(fn.module is not None and fn.name.startswith("_") and
+               fn.module.name == q.rsplit(".", 1)[0] for q in atomic_funcs)
+
+
 def check(ctx):
     prog = ctx.prog
     results = sweep(prog, "plain")
@@ -431,8 +444,9 @@ def check(ctx):
                 continue
             if kind.startswith("os.re"):
                 continue
-            if q in atomic_funcs:
-                continue      # the idiom's own temp-file write
+            if q in atomic_funcs or _inside_atomic(e, atomic_funcs):
+                continue      # the idiom's own temp-file write (also when
+                #               the atomic function is looked through)
             nsinks += 1
             if any(x.op == "param" for x in e.live.walk()):
                 # the write is behind a switch of its function: judged in
@@ -536,7 +550,8 @@ def check(ctx):
                     for x in subj.walk()):
                 continue
             ndel += 1
-            own_tmp = q in atomic_funcs and not any(
+            own_tmp = (q in atomic_funcs or
+                       _inside_atomic(e, atomic_funcs)) and not any(
                 is_call_to(x, ".glob", ".iterdir", "os.listdir", "glob.glob",
                            ".rglob", "os.scandir") for x in subj.walk())
             ctx.ob("C19.5", e, own_tmp,
